@@ -142,7 +142,8 @@ claim("C07",
       "Rocq proof (case analysis of the page processor + matrix update lemmas) + differential check on boundary rows",
       "DESIGN.md section 6 C07")
 claim("C05",
-      "Theorems (Coq, unbounded): the renderer's hierarchical loop renders exactly heading_plan — outer levels before "
+      "Theorems (Coq, unbounded): C05_state - the loop invariant: at every row of every page the carried heading state agrees with "
+      "the row on every non-divider page_by level, so each boundary compares against the true values above it; the renderer's hierarchical loop renders exactly heading_plan — outer levels before "
       "inner, every changed level rendered, every inner level re-rendered once an outer one is, nothing when nothing "
       "changed; divider values never reach the heading values; in-page boundaries are strictly increasing and strictly "
       "inside the page, so headings are followed by the first data row of their group. Against the implementation: per "
